@@ -557,7 +557,14 @@ def rule_own_fields(ctx: Ctx, rep: Report) -> None:
     rule_own_fields_forwarded(ctx, rep, "C11.own_fields", ('btclib.psbt.psbt.', 'btclib.psbt.psbt_in', 'btclib.psbt.psbt_out'), 20)
 
 
+def rule_params_forwarded_(ctx: Ctx, rep: Report) -> None:
+    """C11.params_forwarded: a parameter is handed on to callees that have a parameter of the same name (see sigcommon.rule_params_forwarded)."""
+    from rules.sigcommon import rule_params_forwarded
+    rule_params_forwarded(ctx, rep, "C11.params_forwarded", ('btclib.psbt.psbt', 'btclib.psbt.psbt_in', 'btclib.psbt.psbt_out', 'btclib.psbt.psbt_utils'), 100)
+
+
 RULES = [
+    ("C11.params_forwarded", rule_params_forwarded_),
     ("C11.own_fields", rule_own_fields),
     ("C11.combine_fields", rule_combine_fields),
     ("C11.merge_rule", rule_merge_rule),
